@@ -28,6 +28,7 @@ Conforms(o) ==
   /\ o.out.setup_ok
   /\ \A k \in 1..Len(o.out.ests) : EstOK(o, o.out.ests[k])
   /\ o.out.listener_before_ack                                  \* the listener is registered before its knocks are acknowledged
+  /\ o.out.leftover_goroutines = 0                              \* closing the client ends the brokers' goroutines (checked where asked for)
 
 TInit == i = 1 /\ bad = 0
 TNext ==
